@@ -593,7 +593,12 @@ class PrefixOperator(Operator):
         length = len(group)
         del group[position]
         if position < length - 1:
-            group[position] = self.grouptype([group[position]])
+            # The operand may itself start with a prefix operator ("NOT NOT
+            # a"): let that one take its operand first
+            if isinstance(group[position], PrefixOperator):
+                group[position].replace_self(parser, group, position)
+            if position < len(group):
+                group[position] = self.grouptype([group[position]])
         return position
 
 
